@@ -120,14 +120,17 @@ int RePair::extractStringAndCompareRP(uint id, uchar *str, uint strLen) {
       if (cmp != 0)
         break;
     } else {
-      if ((uchar)next != str[pos])
-        return (int)((uchar)next - str[pos]);
+      if ((uchar)next != str[pos]) {
+        cmp = (int)((uchar)next - str[pos]);
+        break;
+      }
       pos++;
     }
 
     l++;
   }
 
+  // The caller's pattern is restored on every path
   str[strLen] = 0;
 
   return cmp;
